@@ -19,6 +19,9 @@ Two specifications (spec/settings), each bound to the real code:
                   every admitted value, among them the groups whose fields are falsy but set: "", [], 0, 0.0, False);
                   every input form of Settings.modified (plain value, Setting object, new key, case title) and of an
                   assignment (cs[name] = v, Setting.setValue, Setting.value =) is an action or a rotation of one;
+                  the registration *order* of a setting-defining plugin and a plugin contributing Option/Default for it is
+                  a dimension (both orders per run: declarations against SettingSchema!EffDecl, all cases, sweep, edges);
+                  a plugin with a renamed setting arrives in the middle of behaviours (action Register) after texts were read;
                   (c) code -> spec: seeded random histories on real objects, abstracted and validated by SettingsCase_trace.
 
 Expected values always come from TLC (the printed cases and the emitted states); this file builds inputs, runs the real
